@@ -1,6 +1,7 @@
 (* C05 — Transaction::verify_tx_amt_proofs (src/blind.rs) in the ideal-commitment world, statement by statement:
    same checks, same order, same error variants (including the quirk that an OUTPUT's get_value_commit error is reported
-   as SpentTxOutError(i, _), and that ZeroValueCommitment is propagated instead of skipped — finding F13).
+   as SpentTxOutError(i, _)). An output whose get_value_commit is ZeroValueCommitment is skipped (repair b3b2d40 of finding
+   F13); for a SPENT output that error is still reported.
    No proofs here. *)
 From Coq Require Import List NArith ZArith Bool.
 From Coq.Strings Require Import Byte.
@@ -90,13 +91,21 @@ Definition verify_output (domain : list gel) (i : nat) (out : txout) : oc verr g
     | _ => OVal tt
     end in
   OVal out_commit.
-Fixpoint verify_outputs (domain : list gel) (outs : list txout) (i : nat) : oc verr (list gel) :=
+(* `Err(TxOutError::ZeroValueCommitment) => continue`: an explicit zero amount on a provably unspendable script carries no value;
+   the iteration is left before anything is pushed or checked *)
+Definition skipped (out : txout) : bool :=
+  match get_value_commit out with OFail ZeroValueCommitment => true | _ => false end.
+(* one iteration: None = `continue`, Some c = the commitment pushed to out_commits *)
+Definition verify_output_step (domain : list gel) (i : nat) (out : txout) : oc verr (option gel) :=
+  if skipped out then OVal None else let* c := verify_output domain i out in OVal (Some c).
+Fixpoint verify_outputs (domain : list gel) (outs : list txout) (i : nat) : oc verr (list (option gel)) :=
   match outs with
   | [] => OVal []
-  | out :: r => let* c := verify_output domain i out in
+  | out :: r => let* c := verify_output_step domain i out in
                 let* cs := verify_outputs domain r (S i) in
                 OVal (c :: cs)
   end.
+Definition out_commits (l : list (option gel)) : list gel := flat_map (fun o => match o with Some c => [c] | None => [] end) l.
 
 (* secp256k1_pedersen_verify_tally: Σ a − Σ b is the point at infinity *)
 Definition verify_commitments_sum_to_equal (a b : list gel) : bool := geqb (gsum a) (gsum b).
@@ -104,6 +113,6 @@ Definition verify_commitments_sum_to_equal (a b : list gel) : bool := geqb (gsum
 Definition verify_tx_amt_proofs (t : tx) (spent_utxos : list txout) : oc verr unit :=
   if negb (Nat.eqb (length spent_utxos) (length (t_in t))) then OFail UtxoInputLenMismatch else
   let* (domain, in_commits) := verify_inputs (t_in t) spent_utxos 0 in
-  let* out_commits := verify_outputs domain (t_out t) 0 in
-  if negb (verify_commitments_sum_to_equal in_commits out_commits) then OFail BalanceCheckFailed else
+  let* pushed := verify_outputs domain (t_out t) 0 in
+  if negb (verify_commitments_sum_to_equal in_commits (out_commits pushed)) then OFail BalanceCheckFailed else
   OVal tt.
